@@ -58,8 +58,6 @@ pub(crate) enum JumpRecordAction {
     /// and the `break` goes to the end of the loop, this is solved by having a jump table (See [`crate::vm::opcode::Opcode::JumpTable`])
     /// at the end of finally (It is constructed in [`ByteCompiler::pop_try_with_finally_control_info()`]).
     HandleFinally {
-        /// Jump table index.
-        index: u32,
         /// Register for the flag that indicated if the finally block needs to re throw.
         finally_throw_flag: u32,
         /// Register for the index in the jump table.
@@ -113,10 +111,18 @@ impl JumpRecord {
                     }
                 }
                 JumpRecordAction::HandleFinally {
-                    index: value,
                     finally_throw_flag,
                     finally_throw_index,
                 } => {
+                    // The jump table index is the position this record gets in the jumps of the
+                    // try statement it is transferred to next. It has to be read now: a record
+                    // that crosses several nested `finally` blocks reaches the outer ones only
+                    // when the inner statement is finished, after other records.
+                    let Some(JumpRecordAction::Transfer { index }) = self.actions.last() else {
+                        unreachable!("a finally block is always followed by the transfer to its try statement")
+                    };
+                    let value = compiler.jump_info[*index as usize].jumps.len();
+
                     // Note: +1 because 0 is reserved for the fallthrough entry of the
                     // jump table emitted in `pop_try_with_finally_control_info`.
                     let index = value as i32 + 1;
